@@ -74,6 +74,7 @@ pub trait Observer: Send {
         site: Site,
         key: u64,
         guard_held: bool,
+        guards_anywhere: bool,
     );
 }
 
@@ -97,6 +98,13 @@ pub struct Inner {
     stall_released: bool,
     pub switches: u64,
     pub observer: Option<Box<dyn Observer>>,
+    /// map guards held by simulated threads: (map, shard or usize::MAX, exclusive, tid)
+    pub locks: Vec<(usize, usize, bool, usize)>,
+    /// threads waiting for a map guard held by another thread
+    pub blocked: Vec<bool>,
+    pub lock_waits: u64,
+    pub deadlock: bool,
+    pub in_guard_preemptions: u64,
 }
 
 pub const NONE: usize = usize::MAX;
@@ -155,6 +163,11 @@ impl Sched {
                 stall_released: false,
                 switches: 0,
                 observer: None,
+                locks: Vec::new(),
+                blocked: vec![false; n],
+                lock_waits: 0,
+                deadlock: false,
+                in_guard_preemptions: 0,
             }),
             cv: Condvar::new(),
             clock: SimClock::new(clock),
@@ -274,6 +287,36 @@ impl Inner {
     }
 }
 
+impl Inner {
+    /// `choose` among the threads that are not waiting for a map guard.
+    fn choose_runnable(&mut self, me: usize, at_boundary: bool) -> usize {
+        if !self.blocked.iter().any(|b| *b) {
+            return self.choose(me, at_boundary);
+        }
+        let saved = self.alive.clone();
+        for i in 0..self.alive.len() {
+            if self.blocked[i] {
+                self.alive[i] = false;
+            }
+        }
+        let r = if self.alive.iter().any(|a| *a) {
+            self.choose(me, at_boundary)
+        } else {
+            NONE
+        };
+        self.alive = saved;
+        r
+    }
+    fn conflict(&self, tid: usize, map: usize, shard: usize, exclusive: bool) -> bool {
+        self.locks.iter().any(|(m, s, e, t)| {
+            *t != tid
+                && *m == map
+                && (*s == shard || *s == usize::MAX || shard == usize::MAX)
+                && (exclusive || *e)
+        })
+    }
+}
+
 pub struct ThreadHooks {
     pub sched: Arc<Sched>,
     pub tid: usize,
@@ -281,7 +324,10 @@ pub struct ThreadHooks {
 
 impl Sched {
     fn yield_to(&self, mut g: std::sync::MutexGuard<'_, Inner>, tid: usize, at_boundary: bool) {
-        let next = g.choose(tid, at_boundary);
+        let mut next = g.choose_runnable(tid, at_boundary);
+        if next == NONE {
+            next = tid;
+        }
         g.schedule.push(next as u8);
         if next != tid {
             g.switches += 1;
@@ -384,7 +430,14 @@ impl Sched {
             key: 0,
             outcome: 2,
         });
-        let next = g.choose(tid, true);
+        let mut next = g.choose_runnable(tid, true);
+        if next == NONE && g.alive.iter().any(|a| *a) {
+            // everybody left is waiting for a guard: none can be held by a finished thread
+            for b in g.blocked.iter_mut() {
+                *b = false;
+            }
+            next = g.choose(tid, true);
+        }
         if next != NONE {
             g.schedule.push(next as u8);
         }
@@ -394,42 +447,30 @@ impl Sched {
 
     fn step(&self, tid: usize, site: Site, key: u64, guard_held: bool) {
         let mut g = self.m.lock().unwrap();
-        if g.aborted && !guard_held {
+        if g.aborted {
             drop(g);
             std::panic::panic_any(BudgetExceeded);
         }
         g.steps += 1;
         g.own_steps[tid] += 1;
-        if g.steps > g.budget && !guard_held {
+        if g.steps > g.budget {
             g.aborted = true;
             self.cv.notify_all();
             drop(g);
             std::panic::panic_any(BudgetExceeded);
         }
-        if guard_held {
-            // never descheduled while holding a shard lock; the step is still recorded
-            let op = g.cur_op[tid];
-            let step_no = g.trace.len() as u64;
-            g.trace.push(Ev {
-                kind: EvKind::Step,
-                tid: tid as u8,
-                op: op as u8,
-                site,
-                key,
-                outcome: 2,
-            });
-            // a real reader can load the aggregates while this thread holds a shard lock
-            if let Some(mut ob) = g.observer.take() {
-                ob.before_op(step_no, tid, op, site, key, true);
-                g.observer = Some(ob);
-            }
-            return;
+        // decide who runs; if it is not me, park here (also while holding a map guard: another
+        // thread that needs that guard waits in `acquire`, everything else may interleave)
+        let mut next = g.choose_runnable(tid, false);
+        if next == NONE {
+            next = tid;
         }
-        // decide who runs; if it is not me, park here
-        let next = g.choose(tid, false);
         g.schedule.push(next as u8);
         if next != tid {
             g.switches += 1;
+            if guard_held {
+                g.in_guard_preemptions += 1;
+            }
             g.current = next;
             self.cv.notify_all();
             while g.current != tid && !g.aborted {
@@ -451,9 +492,84 @@ impl Sched {
             key,
             outcome: 2,
         });
+        let guards_anywhere = !g.locks.is_empty();
         if let Some(mut ob) = g.observer.take() {
-            ob.before_op(step_no, tid, op, site, key, false);
+            ob.before_op(step_no, tid, op, site, key, guard_held, guards_anywhere);
             g.observer = Some(ob);
+        }
+    }
+
+    /// Wait (running other threads meanwhile) until no other simulated thread holds a guard that
+    /// conflicts with the requested one.
+    fn acquire(&self, tid: usize, map: usize, shard: usize, exclusive: bool) {
+        let mut g = self.m.lock().unwrap();
+        let mut waited = false;
+        loop {
+            if g.aborted {
+                drop(g);
+                std::panic::panic_any(BudgetExceeded);
+            }
+            if !g.conflict(tid, map, shard, exclusive) {
+                g.blocked[tid] = false;
+                if waited {
+                    // the operation takes effect now, not when it was announced: move its event
+                    // to the end of the trace so that trace order is the order of effects
+                    if let Some(i) = g
+                        .trace
+                        .iter()
+                        .rposition(|e| e.kind == EvKind::Step && e.tid as usize == tid)
+                    {
+                        let e = g.trace.remove(i);
+                        g.trace.push(e);
+                    }
+                }
+                return;
+            }
+            waited = true;
+            g.blocked[tid] = true;
+            g.lock_waits += 1;
+            g.steps += 1;
+            if g.steps > g.budget {
+                g.aborted = true;
+                self.cv.notify_all();
+                drop(g);
+                std::panic::panic_any(BudgetExceeded);
+            }
+            let next = g.choose_runnable(tid, false);
+            if next == NONE {
+                // every live thread waits for a guard held by another one
+                g.deadlock = true;
+                g.aborted = true;
+                self.cv.notify_all();
+                drop(g);
+                std::panic::panic_any(BudgetExceeded);
+            }
+            g.schedule.push(next as u8);
+            g.switches += 1;
+            g.current = next;
+            self.cv.notify_all();
+            while g.current != tid && !g.aborted {
+                g = self.cv.wait(g).unwrap();
+            }
+        }
+    }
+
+    fn hold(&self, tid: usize, map: usize, shard: usize, exclusive: bool) {
+        let mut g = self.m.lock().unwrap();
+        g.locks.push((map, shard, exclusive, tid));
+    }
+
+    fn release(&self, tid: usize, map: usize, shard: usize, exclusive: bool) {
+        let mut g = self.m.lock().unwrap();
+        if let Some(i) = g
+            .locks
+            .iter()
+            .rposition(|x| *x == (map, shard, exclusive, tid))
+        {
+            g.locks.remove(i);
+        }
+        for b in g.blocked.iter_mut() {
+            *b = false;
         }
     }
 
@@ -477,6 +593,15 @@ impl SimHooks for ThreadHooks {
     }
     fn after(&self, site: Site, key: u64, outcome: u64) {
         self.sched.after(self.tid, site, key, outcome);
+    }
+    fn acquire(&self, map: usize, shard: usize, exclusive: bool) {
+        self.sched.acquire(self.tid, map, shard, exclusive);
+    }
+    fn hold(&self, map: usize, shard: usize, exclusive: bool) {
+        self.sched.hold(self.tid, map, shard, exclusive);
+    }
+    fn release(&self, map: usize, shard: usize, exclusive: bool) {
+        self.sched.release(self.tid, map, shard, exclusive);
     }
     fn now_millis(&self) -> u64 {
         self.sched.clock.read()
